@@ -123,37 +123,55 @@ func main() {
 				t.ASes[ia].MaxExp = uint8(20 + rng.Intn(200))
 			}
 		}
-		name := fmt.Sprintf("file:veriflookup%d_%d", os.Getpid(), atomic.AddInt64(&dbSeq, 1))
-		pdb, err := pathsqlite.New(name, &db.SqliteConfig{InMemory: true})
-		if err != nil {
-			vt.Fatal("pathdb: %v", err)
-		}
+		// beaconing runs: creation time j units + 150 s ago, so that every hop expiry is >= 150 s away from now
+		var sets []*segs.SegSet
 		runs := 1 + rng.Intn(2)
 		for r := 0; r < runs; r++ {
-			// creation time: j units + 150 s ago, so that every hop expiry is >= 150 s away from now
 			j := rng.Intn(4)
 			ts := t0.Add(-time.Duration(j*3375/10+150) * time.Second)
 			ss, err := t.Run(ts, rng, 5, func(addr.IA) beaconing.SignerGen { return segs.SignerGen{signer} })
 			if err != nil {
 				vt.Fatal("beaconing: %v", err)
 			}
+			sets = append(sets, ss)
+		}
+		// one path DB per local AS: segments ending at the local AS are its up segments, all others
+		// down segments (the path DB ignores a second insert of the same segment under another type)
+		dbs := map[addr.IA]*pathsqlite.Backend{}
+		dbFor := func(local addr.IA) *pathsqlite.Backend {
+			if d, ok := dbs[local]; ok {
+				return d
+			}
+			name := fmt.Sprintf("file:veriflookup%d_%d", os.Getpid(), atomic.AddInt64(&dbSeq, 1))
+			pdb, err := pathsqlite.New(name, &db.SqliteConfig{InMemory: true})
+			if err != nil {
+				vt.Fatal("pathdb: %v", err)
+			}
 			ins := func(s *seg.PathSegment, typ seg.Type) {
 				if _, err := pdb.Insert(ctx, &seg.Meta{Segment: s, Type: typ}); err != nil {
 					vt.Fatal("insert: %v", err)
 				}
 			}
-			for _, l := range ss.Down {
-				for _, s := range l {
-					ins(s, seg.TypeDown)
-					ins(s, seg.TypeUp)
+			for _, ss := range sets {
+				for ia, l := range ss.Down {
+					for _, s := range l {
+						if ia == local {
+							ins(s, seg.TypeUp)
+						} else {
+							ins(s, seg.TypeDown)
+						}
+					}
+				}
+				for _, s := range ss.Core {
+					ins(s, seg.TypeCore)
 				}
 			}
-			for _, s := range ss.Core {
-				ins(s, seg.TypeCore)
-			}
+			dbs[local] = pdb
+			return pdb
 		}
 		for k := 0; k < *per; k++ {
 			local := t.Order[rng.Intn(len(t.Order))]
+			pdb := dbFor(local)
 			var dst addr.IA
 			switch rng.Intn(16) {
 			case 0:
@@ -282,7 +300,9 @@ func main() {
 			w.Emit(vt.M{"ev": "reset", "case": caseNo})
 			w.Emit(ev)
 		}
-		pdb.Close()
+		for _, d := range dbs {
+			d.Close()
+		}
 	}
 	fmt.Printf("lookups=%d\n", caseNo)
 }
